@@ -831,7 +831,9 @@ class Dict(dict, base.Symbolic, pg_typing.CustomTyping):
       value = self.sym_getattr(key)
     if value == pg_typing.MISSING_VALUE:
       self[key] = default
-      value = default
+      # Return what is stored (a list/dict default is stored as its symbolic
+      # counterpart), so `d.setdefault(k, []).append(x)` reaches the dict.
+      value = self.sym_getattr(key, default)
     return value
 
   def update(
